@@ -20,10 +20,13 @@
 #include "varintPacked.h"
 
 static uint64_t shared_in[2]; /* shared, read-only while the threads run */
-static uint8_t o[2][16];      /* private outputs */
+/* no arrays of arrays (CBMC 6.11 mis-models byte updates through a pointer into a row of a 2-D array) */
+static uint8_t oa_[16], ob_[16]; /* private outputs */
+static uint8_t *const o[2] = {oa_, ob_};
 static uint64_t ov[2];
 static unsigned on[2];
-static uint64_t bs[2][3];
+static uint64_t bsa_[3], bsb_[3];
+static uint64_t *const bs[2] = {bsa_, bsb_};
 
 static void work(int t, uint8_t *out, uint64_t *val, unsigned *len, uint64_t *stream) {
     const uint64_t v = shared_in[t];
@@ -82,8 +85,10 @@ void harness(void) {
 #endif
     shared_in[0] = a;
     shared_in[1] = b;
-    uint8_t r[2][16];
-    uint64_t rv[2], rs[2][3];
+    uint8_t ra_[16], rb_[16];
+    uint8_t *const r[2] = {ra_, rb_};
+    uint64_t rv[2], rsa_[3], rsb_[3];
+    uint64_t *const rs[2] = {rsa_, rsb_};
     unsigned rn[2];
     for (int t = 0; t < 2; t++) {
         for (int i = 0; i < 16; i++)
